@@ -52,7 +52,6 @@ where
     }
     world.reconcile_dir(CORRUPTED);
     *ctx.active_known.borrow_mut() = Some(storage.has_active_blob().await);
-    note_loaded_at_init(&ctx, storage.has_active_blob().await);
     crate::oracle::after_init(&ctx, &storage, si).await;
 
     let sequential = sess.clients.len() == 1;
@@ -156,41 +155,62 @@ where
             tokio::time::sleep(Duration::from_millis(op.think_ms)).await;
         }
         if let OpKind::Restart { lazy, damage } = &op.kind {
-            // clean close + reopen inside the same runtime
             let storage = st.take().unwrap();
-            crate::oracle::before_close(ctx, &storage, si).await;
-            let counters_before = crate::oracle::counters_snapshot(&storage).await;
-            let r = tagged(&world, Some(Tag { client: 0, uid: op.uid }), storage.close()).await;
-            if let Err(e) = r {
-                if plan.faults.is_empty() {
-                    ctx.violate(&["C04", "C13"], "close-failed", format!("close() returned Err({}) in a fault-free run", err_kind(&e)), format!("{:#}", e));
+            match restart_once::<K>(ctx, storage, si, op.uid, *lazy, damage, true).await {
+                Ok(s2) => *st = Some(s2),
+                Err(o) => return Some(o),
+            }
+            maintenance_seen = false;
+            continue;
+        }
+        if let OpKind::RestartSweep { lazy, blob, max_cuts } = &op.kind {
+            let mut storage = st.take().unwrap();
+            // first a plain restart so that every closed blob has an index file
+            storage = match restart_once::<K>(ctx, storage, si, op.uid, *lazy, &[], true).await {
+                Ok(s2) => s2,
+                Err(o) => return Some(o),
+            };
+            let att: Vec<usize> = ctx.attached().into_iter().collect();
+            let with_index: Vec<usize> = att.iter().copied().filter(|b| world.inner.borrow().shadows.get(&format!("{}.{}.index", PREFIX, b)).map(|s| !s.removed && !s.content.is_empty()).unwrap_or(false)).collect();
+            if !with_index.is_empty() {
+                let b = with_index[*blob % with_index.len()];
+                let len = world.inner.borrow().shadows[&format!("{}.{}.index", PREFIX, b)].content.len() as u64;
+                let mut cuts: Vec<u64> = Vec::new();
+                if len <= *max_cuts as u64 {
+                    cuts.extend(0..len);
+                } else {
+                    let n = (*max_cuts as u64).max(8);
+                    for i in 0..n {
+                        cuts.push(i * len / n);
+                    }
+                    for c in [0u64, 1, 82, 83, 84, len - 1, len.saturating_sub(57 + ctx.key_len as u64), len.saturating_sub(58 + ctx.key_len as u64)] {
+                        if c < len {
+                            cuts.push(c);
+                        }
+                    }
+                    cuts.sort();
+                    cuts.dedup();
+                }
+                for l in cuts {
+                    world.probe("index_truncation_length_swept");
+                    // pick_blob() indexes blobs *with* an index file: translate
+                    let pos = with_index.iter().position(|x| *x == b).unwrap_or(0);
+                    let dmg = vec![AtRest::IndexTruncate { blob: pos, len: l }];
+                    let nviol = ctx.violations.borrow().len();
+                    storage = match restart_once::<K>(ctx, storage, si, op.uid, *lazy, &dmg, false).await {
+                        Ok(s2) => s2,
+                        Err(o) => {
+                            ctx.sweep_hit.borrow_mut().get_or_insert((op.uid, dmg.clone()));
+                            return Some(o);
+                        }
+                    };
+                    if ctx.violations.borrow().len() > nviol {
+                        ctx.sweep_hit.borrow_mut().get_or_insert((op.uid, dmg.clone()));
+                        break;
+                    }
                 }
             }
-            crate::oracle::after_close(ctx, si);
-            crate::faults::save_index_copies(ctx);
-            crate::faults::apply_at_rest(ctx, damage);
-            let mut sess2 = plan.sessions[si].clone();
-            sess2.lazy_init = *lazy;
-            let mut s2: Storage<K> = build_storage::<K>(&plan.store, &sess2, &ctx.dir);
-            let init_tag = Some(Tag { client: 0, uid: op.uid });
-            let r = if *lazy { tagged(&world, init_tag, s2.init_lazy()).await } else { tagged(&world, init_tag, s2.init()).await };
-            if let Err(e) = r {
-                ctx.violate(&["C03"], "reopen-failed", format!("init after clean close returned Err({})", err_kind(&e)), format!("damage={:?}: {:#}", damage, e));
-                return Some(SessionOutcome::InitFailed(err_kind(&e)));
-            }
-            world.reconcile_dir(CORRUPTED);
-            *ctx.active_known.borrow_mut() = Some(s2.has_active_blob().await);
-            note_loaded_at_init(ctx, s2.has_active_blob().await);
-            *ctx.last_step_note.borrow_mut() = format!("after Restart(lazy={}, damage={:?}) uid={}", lazy, damage, op.uid);
-            crate::oracle::after_init(ctx, &s2, si).await;
-            crate::oracle::compare_counters_after_restart(ctx, &counters_before, &s2, damage).await;
-            if plan.check_each_step {
-                check_all_queries::<K>(ctx, &s2, "restart", op.uid).await;
-                if crate::oracle::settle(ctx).await {
-                    crate::oracle::check_accounting(ctx, &s2, "restart").await;
-                }
-            }
-            *st = Some(s2);
+            *st = Some(storage);
             maintenance_seen = false;
             continue;
         }
@@ -228,15 +248,53 @@ where
     None
 }
 
-/// After init the index of the active blob (highest id) is held in memory even if its file exists.
-pub fn note_loaded_at_init(ctx: &Rc<RunCtx>, has_active: bool) {
-    let mut l = ctx.loaded_at_init.borrow_mut();
-    l.clear();
-    if has_active {
-        if let Some(a) = ctx.attached().iter().next_back().copied() {
-            l.insert(a, ctx.world.seq());
+/// Clean close, damage to index files at rest, reopen in the same runtime, compare with the model.
+pub async fn restart_once<K>(ctx: &Rc<RunCtx>, storage: Storage<K>, si: usize, uid: u32, lazy: bool, damage: &[AtRest], accounting: bool) -> Result<Storage<K>, SessionOutcome>
+where
+    for<'a> K: Key<'a> + AsRef<K> + 'static,
+{
+    let plan = ctx.plan.clone();
+    let world = ctx.world.clone();
+    crate::oracle::before_close(ctx, &storage, si).await;
+    let counters_before = crate::oracle::counters_snapshot(&storage).await;
+    let r = tagged(&world, Some(Tag { client: 0, uid }), storage.close()).await;
+    if let Err(e) = r {
+        if plan.faults.is_empty() {
+            ctx.violate(&["C04", "C13"], "close-failed", format!("close() returned Err({}) in a fault-free run", err_kind(&e)), format!("{:#}", e));
         }
     }
+    crate::oracle::after_close(ctx, si);
+    crate::oracle::verify_files(ctx, "after clean close");
+    crate::faults::save_index_copies(ctx);
+    crate::faults::apply_at_rest(ctx, damage);
+    let mut sess2 = plan.sessions[si].clone();
+    sess2.lazy_init = lazy;
+    let mut s2: Storage<K> = build_storage::<K>(&plan.store, &sess2, &ctx.dir);
+    let init_tag = Some(Tag { client: 0, uid });
+    let r = if lazy { tagged(&world, init_tag, s2.init_lazy()).await } else { tagged(&world, init_tag, s2.init()).await };
+    if let Err(e) = r {
+        ctx.violate(&["C03"], "reopen-failed", format!("init after clean close returned Err({})", err_kind(&e)), format!("damage={:?}: {:#}", damage, e));
+        return Err(SessionOutcome::InitFailed(err_kind(&e)));
+    }
+    world.reconcile_dir(CORRUPTED);
+    *ctx.active_known.borrow_mut() = Some(s2.has_active_blob().await);
+    *ctx.last_step_note.borrow_mut() = format!("after Restart(lazy={}, damage={:?}) uid={}", lazy, damage, uid);
+    crate::oracle::after_init(ctx, &s2, si).await;
+    crate::oracle::compare_counters_after_restart(ctx, &counters_before, &s2, damage).await;
+    if plan.check_each_step {
+        let nviol = ctx.violations.borrow().iter().filter(|v| v.property.contains("C03")).count();
+        check_all_queries::<K>(ctx, &s2, "restart", uid).await;
+        if accounting && crate::oracle::settle(ctx).await {
+            crate::oracle::check_accounting(ctx, &s2, "restart").await;
+        }
+        if ctx.violations.borrow().iter().filter(|v| v.property.contains("C03")).count() > nviol {
+            // the storage no longer matches the model: everything after this point would only
+            // repeat the same defect
+            ctx.aborted.set(true);
+            return Err(SessionOutcome::Dropped);
+        }
+    }
+    Ok(s2)
 }
 
 fn restart_phase(plan: &Plan, si: usize) -> &'static str {
